@@ -321,6 +321,9 @@ def verify_contract(con, contracts, tier="quick", externals=None):
             amap["result"] = result
             for p in names:
                 amap[p + "_post"] = s_out.env.get(p)
+            for ln, lv in s_out.env.items():
+                if not ln.startswith("__"):
+                    amap.setdefault("local_" + ln, lv)
             amap["_trace"] = s_out.trace
             amap["_yielded"] = s_out.yielded
             amap["_rand"] = tuple(v for _, v in s_out.rand)
